@@ -862,6 +862,38 @@ func checkC02Flow(p *Prog, r *Report, md, ud *ssa.Function) {
 		r.decide(good, "C02.flow", "MarshalDocument:included-whenever-data", p.pos(loopHeaderPos(cl)), "the included resources are marshaled whenever data is emitted", "the included resources are marshaled only under the condition "+shorten(why)+", which does not follow from data being emitted: documents lose their included resources")
 	}
 	r.floor("inclusion loops in MarshalDocument", nInc, 1)
+	// errors win: data is stored only when there are no errors, and the errors
+	// store does not depend on the data
+	{
+		noErrs := false
+		for _, ef := range expandFacts(factsAt(dataStore.Block())) {
+			cs := condString(ef.Cond, 0)
+			if strings.HasPrefix(cs, "(len(") && strings.HasSuffix(cs, " > 0:int)") && !ef.Truth {
+				if bo, ok := ef.Cond.(*ssa.BinOp); ok {
+					if c, _ := callOf(bo.X); c != nil && len(c.Common().Args) == 1 {
+						for _, o := range origins(c.Common().Args[0]) {
+							if ex, ok := o.(*ssa.Extract); ok {
+								if mc, _ := callOf(ex.Tuple); mc != nil && calleeIs(mc, "encoding/json", "Marshal") {
+									if _, fl, ok := fieldLoad(unbox(mc.Common().Args[0])); ok && fl == "Errors" {
+										noErrs = true
+									}
+								}
+							}
+						}
+					}
+				}
+			}
+		}
+		r.decide(noErrs, "C02.flow", "MarshalDocument:errors-win", p.pos(dataStore.Pos()), "data is stored only when no errors were marshaled", "the data member can be stored although the document carries errors: a document with errors does not come back with its errors and without data")
+		dataDep := ""
+		for _, ef := range expandFacts(factsAt(errStore.Block())) {
+			cs := condString(ef.Cond, 0)
+			if containsToken(cs, pathOf(unbox(dataStore.Value), 0)) || strings.Contains(cs, ".&Data") {
+				dataDep = fmt.Sprintf("%s = %v", cs, ef.Truth)
+			}
+		}
+		r.decide(dataDep == "", "C02.flow", "MarshalDocument:errors-unconditional", p.pos(errStore.Pos()), "errors are stored whenever there are any", "the errors member is stored only under the condition "+shorten(dataDep)+": errors can be dropped")
+	}
 	// errors as a whole
 	{
 		good := false
@@ -961,4 +993,20 @@ func mustPassInstrOrEdge(f *ssa.Function, target ssa.Instruction, pass func(ssa.
 		}
 	}
 	return true
+}
+
+// containsToken: tok occurs in s and is not followed by a digit (register names
+// are prefixes of one another).
+func containsToken(s, tok string) bool {
+	for i := 0; ; {
+		j := strings.Index(s[i:], tok)
+		if j < 0 {
+			return false
+		}
+		end := i + j + len(tok)
+		if end >= len(s) || s[end] < '0' || s[end] > '9' {
+			return true
+		}
+		i = end
+	}
 }
